@@ -1067,6 +1067,9 @@ def m_str_strip(I, s, args, kwargs, node):
 
 
 def m_str_rstrip(I, s, args, kwargs, node):
+    probe = getattr(I.ctx, "rstrip_probe", None)
+    if probe is not None:
+        probe(I, Val.s(s))
     ps = pystr(Val.s(s))
     if args and V.ctor_name(z3.simplify(args[0])) != "none":
         a = _str_arg(I, args[0], node)
